@@ -187,7 +187,7 @@ Lemma get_body_string_inr o v : get_body_string cfg ctype fr s = inr o -> o <> O
 Proof.
   unfold get_body_string. destruct (body_stage cfg ctype fr s) as [[body m]|o'] eqn:E.
   - destruct (content_length fr) as [cl|]; [|intros [= <-]; discriminate].
-    destruct (_ <? _); [intros [= <-]; apply raise_not_ok|].
+    cbv zeta. destruct (_ <? _); [intros [= <-]; apply raise_not_ok|].
     destruct (_ <? _); [intros [= <-]; apply raise_not_ok | discriminate].
   - intros [= <-]. now apply (body_stage_inr o').
 Qed.
